@@ -130,7 +130,7 @@ def run(tier, seed):
     cov = {"tlc": []}
     jobs = min(core.NCPU, 8 if quick else 12)
 
-    lit_cfgs = ["ConstLiteral_q5"] if quick else ["ConstLiteral_int7", "ConstLiteral_flt6", "ConstLiteral_big5"]
+    lit_cfgs = ["ConstLiteral_q5"] if quick else ["ConstLiteral_int7", "ConstLiteral_flt6", "ConstLiteral_big4"]
     fold_cfgs = ["ConstFold_t3", "ConstFold_t4s"] if quick else ["ConstFold_t3", "ConstFold_t4", "ConstFold_t5"]
     pool_cfgs = ["ConstPool_q"] if quick else ["ConstPool_t", "ConstPool_t2"]
     todo = [("ConstLiteral", c) for c in lit_cfgs] + [("ConstFold", c) for c in fold_cfgs] + [("ConstPool", c) for c in pool_cfgs]
@@ -274,12 +274,12 @@ def plan_literals(tier, rng, rep, tlcs, mods, plans):
             rep.disagree(dict(desc, form="node_type"), "wrong-type", {"text": r["text"], "value": str(v), "node_type": ty})
 
     # compiled modules
-    n_ret = 1800 if quick else 20000
-    n_form = 300 if quick else 6000
+    n_ret = 1800 if quick else 8000
+    n_form = 300 if quick else 2000
     cases = []       # (rec, form)
     n_lzu = sum(1 for r in recs if r["lzu"])
     recs = [r for r in recs if not r["lzu"]]        # valid Python that Cython's lexer rejects: no run-time value to compare
-    must = core.sample(big, 150 if quick else 1500, rng) + \
+    must = core.sample(big, 150 if quick else 1000, rng) + \
         core.sample([r for r in recs if r["kind"] != "int" and ("e" in r["text"].lower())], 50, rng)
     base = core.sample(recs, n_ret, rng)
     seen = set()
@@ -302,7 +302,7 @@ def plan_literals(tier, rng, rep, tlcs, mods, plans):
         mods.add(name, [L.LITERAL_FORMS[f][0] % r["text"] for r, f in chunk], chunk)
         names.append(name)
     # table shapes: modules whose numeric constant table contains only some size classes
-    shapes = literal_shapes(recs, svals, rng, 3 if quick else 40)
+    shapes = literal_shapes(recs, svals, rng, 3 if quick else 12)
     for i, (shape, chunk) in enumerate(shapes):
         name = "c09shape%d" % i
         mods.add(name, [r["text"] for r, f in chunk], chunk, per_fun=7)
@@ -406,8 +406,8 @@ def plan_fold(tier, rng, rep, tlcs, mods, plans):
         if so != po:
             rep.spec_drift("ConstFold value vs CPython", {"src": s, "spec": so, "python": po})
 
-    n_rep = 2500 if quick else 40000
-    chosen = set(core.sample(hazards, 300 if quick else 5000, rng))
+    n_rep = 2500 if quick else 15000
+    chosen = set(core.sample(hazards, 300 if quick else 2500, rng))
     chosen.update(core.sample([s for s in cases if s not in chosen], n_rep, rng))
     chosen = sorted(chosen)
     rng.shuffle(chosen)
@@ -418,18 +418,20 @@ def plan_fold(tier, rng, rep, tlcs, mods, plans):
         name = "c09fold%d" % (k // per_mod)
         mods.add(name, chunk, chunk)
         names.append(name)
-    wide = L.wide_cases(rng, 300 if quick else 6000)
+    wide = L.wide_cases(rng, 300 if quick else 2500)
     wtexts = {}
     for e in wide:
         wtexts.setdefault(e.text(), e)
     wl = sorted(wtexts)
+    seqs = sorted(set(L.seq_cases(rng, 250 if quick else 2000)))
+    wl = wl + seqs
     wnames = []
     for k in range(0, len(wl), per_mod):
         name = "c09wide%d" % (k // per_mod)
         mods.add(name, wl[k:k + per_mod], wl[k:k + per_mod])
         wnames.append(name)
     stats = {"published": len(cases), "skipped_by_spec": skipped, "by_kind": kinds, "hazards_in_model": len(hazards),
-             "folded_in_model": folded, "negative_zero_results": negzero, "replayed": len(chosen), "wide_cases": len(wl)}
+             "folded_in_model": folded, "negative_zero_results": negzero, "replayed": len(chosen), "wide_cases": len(wtexts), "sequence_cases": len(seqs)}
 
     def judge(out, mods_, judged):
         agree_model = 0
@@ -462,11 +464,17 @@ def plan_fold(tier, rng, rep, tlcs, mods, plans):
                 rep.disagree({"part": "wide", "form": "module", "stage": err.split(":")[0]}, "build-failed", {"module": name, "error": err})
                 continue
             for s, o in zip(chunk, obs):
-                e = wtexts[s]
                 want = py_obs(s)
-                lit, ctyped, ov = e.model()
                 judged["n"] += 1
                 judged["nontrivial"].add(s)
+                if s not in wtexts:
+                    if isinstance(want, str):
+                        continue        # raises in Python (index out of range): no value, not a case
+                    if o != want:
+                        rep.disagree({"part": "seq", "form": s.split("(")[0] or "tuple"}, classify(o, want), {"src": s, "want": want, "got": o})
+                    continue
+                e = wtexts[s]
+                lit, ctyped, ov = e.model()
                 if o != want:
                     wbad += 1
                     desc = {"part": "wide", "model": "unfolded-clong-overflow" if ov else "none", "folded": lit, "top": e.op}
@@ -562,7 +570,7 @@ def plan_pool(tier, rng, rep, tlcs, mods, plans):
     front = []
     for i in range(max(len(hz), len(nm))):
         front += hz[i:i + 1] + nm[i:i + 1]
-    n_mod = 3 if quick else 14
+    n_mod = 3 if quick else 10
     cap = 300 if quick else 450
     layers = [[] for _ in range(n_mod)]
     used = [set() for _ in range(n_mod)]
@@ -580,9 +588,9 @@ def plan_pool(tier, rng, rep, tlcs, mods, plans):
                 break
     # (2) tagged pairs (ConstPool.TaggingLemma): a fresh int per pair inside every container, any number per module
     def taggable(p):
-        return pairs[p]["a"]["k"] != "atom" and pairs[p]["b"]["k"] != "atom"
+        return pairs[p]["taggable"] and pairs[p]["a"]["k"] != "atom" and pairs[p]["b"]["k"] != "atom"
     per_tagged = 450
-    n_tagged = 2 if quick else 14
+    n_tagged = 2 if quick else 10
     quota = per_tagged * n_tagged
     chosen = []
     for lst, share in ((hz, 0.3), (nm, 0.4), (sh, 0.15), (eq, 0.15)):
@@ -666,7 +674,7 @@ def real_pool_check(tier, rng, rep, mods, ps, cov):
     (the constants the compiler mapped to one slot, in order) to ConstPool.tla in mode "real"."""
     quick = tier == "quick"
     names = [n for n in ps["_names"] if mods.results.get(n) is not None and mods.results[n].ok]
-    names = core.sample(names, 2 if quick else 12, rng)
+    names = core.sample(names, 2 if quick else 8, rng)
     if not names:
         return {"groups": 0, "note": "no pool module was built"}
     d = core.subdir("c09real")
